@@ -185,10 +185,11 @@ fn expression_ends_with_prefix(expression: &Expression) -> bool {
             expression_ends_with_prefix(if_expression.get_else_result())
         }
         Expression::Number(number) => match number {
-            // infinite and NaN values are written between parentheses: `(1/0)` or `(0/0)`
+            // infinite and NaN values are written between parentheses: `(1/0)` or `(0/0)`,
+            // unless the number still has its token: it is then written as it was spelled
             NumberExpression::Decimal(decimal) => {
                 let float = decimal.get_raw_float();
-                float.is_nan() || float.is_infinite()
+                decimal.get_token().is_none() && (float.is_nan() || float.is_infinite())
             }
             NumberExpression::Hex(_) | NumberExpression::Binary(_) => false,
         },
